@@ -465,6 +465,12 @@ def draw_value(d, T):
             n = d.pick([42, 43, 63, 64, 85, 86, 127, 128, 129, 255, 256, 257])
             few = [draw_value(d, T['of']) for _ in range(5)]
             return [few[(i * 7 + i // 5) % 5] for i in range(n)]
+        if T['of']['k'] in ('CHOICE', 'SEQUENCE', 'SET', 'OCTETSTRING', 'UTF8String') and ir.depth(T['of']) <= 1 \
+                and d.pct(d.cfg.get('many_elems_pct', 3)):
+            # a hundred and more constructed elements in one list (whatever a decoder counts per element adds up)
+            n = d.pick([97, 98, 99, 100, 101, 130])
+            few = [draw_value(D(d.draw, dict(d.cfg, long_str_pct=0, many_elems_pct=0)), T['of']) for _ in range(4)]
+            return [few[(i * 3 + i // 4) % 4] for i in range(n)]
         return [draw_value(d, T['of']) for _ in range(n)]
     if k == 'CHOICE':
         a = d.pick(T['alts'])
@@ -502,6 +508,8 @@ def type_and_value(draw, cfg=None):
         return shared_base_case(d)
     if c['defaults'] and c['tags'] and c['implicit'] and not c.get('root_kinds') and c['max_depth'] >= 2 and d.pct(c.get('directed_pct', 2)):
         return empties_case(d)
+    if c['choice'] and c['tags'] and c['implicit'] and not c.get('root_kinds') and c['max_depth'] >= 2 and d.pct(c.get('directed_pct', 2) / 2.0):
+        return many_choice_case(d)
     T = draw_type(d)
     v = draw_value(d, T)
     return T, v
@@ -687,3 +695,28 @@ def empties_case(d):
     if d.pct(50):
         v['z'] = d.int(-2, 200)
     return T, v
+
+
+def many_choice_case(d):
+    """A list of about a hundred untagged CHOICE values whose alternatives are a string (constructed when chunked), a record and
+    a number: whatever a codec keeps per element - a depth counter, a cache entry, a position - is exercised a hundred times in
+    one call. -> (T, v)"""
+    C = ir.mk('CHOICE', alts=[{'name': 's', 't': ir.mk(d.pick(['OCTETSTRING', 'UTF8String', 'BITSTRING']))},
+                              {'name': 'r', 't': ir.mk(d.pick(['SEQUENCE', 'SET']), comps=[ir.comp('x', ir.mk('INTEGER'))])},
+                              {'name': 'n', 't': ir.mk('INTEGER', tags=[['I', 'C', 2]])}])
+    T = ir.mk(d.pick(['SEQUENCEOF', 'SEQUENCEOF', 'SETOF']), of=C)
+    if d.pct(30):
+        T = ir.mk('SEQUENCE', comps=[ir.comp('l', T), ir.comp('z', ir.mk('INTEGER'), 'opt')])
+    n = d.pick([96, 97, 98, 99, 100, 101, 128, 130])
+    sd = D(d.draw, dict(d.cfg, long_str_pct=0))
+    few = []
+    for _ in range(4):
+        a = d.pick(C['alts'][:2] if d.pct(80) else C['alts'])
+        few.append((a['name'], draw_value(sd, a['t'])))
+    lst = [few[(i * 3 + i // 4) % 4] for i in range(n)]
+    if T['k'] == 'SEQUENCE':
+        v = {'l': lst}
+        if d.pct(50):
+            v['z'] = d.int(0, 9)
+        return T, v
+    return T, lst
